@@ -41,7 +41,20 @@ PROPS["C11"] = {
     "partial": "Galactic rotation (library)",
 }
 
+PROPS["C18"] = {
+    "gen": ["Publish"],
+    "trusted_base": ["file-system semantics: os.replace is atomic; an interrupted in-place write leaves a truncated file; directory listing order is arbitrary (modelled as any permutation)",
+                     "Azure blob store (azure_io.py) is not exercised; its put is a single upload_blob(overwrite=True) call"],
+    "assumptions": COMMON_ASSUME,
+    "partial": "OS file semantics",
+}
+
 LEVEL_TEXT = {
+    "C18": {
+        "text": "The reorder statements of PipelineManager.publish are translated from the source on every run; theorems: for every listing containing index.wtml the transfer list is a permutation with index.wtml last; for every file set, every sequence of publish invocations (any listing order each, interrupted before/inside/after any transfer or before the rename) the store never holds an index.wtml whose companions are missing or incomplete, a moved image is completely stored, an uninterrupted re-run completes, refresh never skips a partially published image. The same theorem for in-place writes is refuted by a two-interruption witness (the defect fixed in e99729d). The model is run against the real PipelineManager + LocalPipelineIo under fault injection over all listing orders.",
+        "note": "trusted: Lean kernel; the list-statement translator; the fault-injection harness (faults = exceptions raised around put_item, a half-delivered source, a failing rename); OS atomicity of os.replace.",
+        "technique": "Lean 4 proof (invariant over all fault histories) + fault-injection correspondence",
+    },
     "C11": {
         "text": "The index computations of the five sampler variants are translated from samplers.py on every run into exact rational Lean functions (angles in turns). Theorems, for all map shapes >=1x1, all rational longitudes and latitudes in [-1/4,1/4] turn: the returned (iy, ix) is in range and its closed cell contains the point's position under the documented layout of the variant; the result is 1-periodic in longitude; strictly inside a cell the answer is unique; the Galactic variant indexes like the sky variant. The real samplers are run on exact rational points strictly inside cells and compared with the model and with an independent floor-based oracle.",
         "note": "trusted: Lean kernel; the expression translator (np.pi -> 1/2 turn etc.: a change of units because every expression is homogeneous in the angle unit); double rounding away from boundaries; astropy's rotation.",
